@@ -258,6 +258,11 @@ def judge(names, run, env, acc, schedule_desc):
     acc.obs('runs_with_preemption')
   for a, b, f, l, _ in run.switches:
     acc.obs('preempt_in:' + f.split('/')[-1])
+  if n_switch >= 2 and len(acc.samples) < 2:
+    acc.sample({'programs': names, 'schedule': schedule_desc,
+                'switches (from thread, to thread, file, line, yield point)':
+                    [list(x) for x in run.switches][:6],
+                'per-thread results equal to solo run': True})
   for (f, l), c in run.point_locs.items():
     acc.notes.setdefault('preemption_points', {})
   for i, name in enumerate(names):
